@@ -165,7 +165,8 @@ class UdpInverterProtocol(InverterProtocol, asyncio.DatagramProtocol):
                 self._retry = 0
             else:
                 logger.debug("Received invalid response: %s", data.hex())
-                asyncio.get_running_loop().call_soon(self._timeout_mechanism)
+                if self.response_future and not self.response_future.done():
+                    asyncio.get_running_loop().call_soon(self._timeout_mechanism)
         except PartialResponseException as ex:
             logger.debug("Received response fragment (%d of %d): %s", ex.length, ex.expected, data.hex())
             self._partial_data = data
